@@ -12,7 +12,7 @@ SCALE = (2, 1)   # budget multiplier (quick, thorough) applied to the n=(...) of
 LEVEL = "exploration"
 RULE = ("label pairs over a pool of grammar-valid, encodable labels (3 roots x 26 shorthands x 9 degree edits x 11 basses + N, X, bare "
         "roots, degree-only labels); generated part: estimates biased to share root/triad/tetrad/bass with the reference; exhaustive part: "
-        "all ordered pairs over a core label set (quick ~140 labels, thorough ~600); non-trivial = a pair on which at least two of the 12 "
+        "all ordered pairs over a core label set (quick ~140 labels, thorough ~600) and inside each of the 79 groups of labels over all 12 roots that sound the same pitch-class set; non-trivial = a pair on which at least two of the 12 "
         "rules give different values; enumerated pairs distinct by construction, generated ones by SHA-1")
 ASSUMPTIONS = [
     "vocabulary and expected values are computed from the independent encoder in /verif/oracles/harte.py (bass inserted into the bitmap, as documented for encode)",
@@ -231,7 +231,64 @@ def pred_pair(case, ctx):
     return nt > 0
 
 
+# ------------------------------------------------------------------ same sounding notes, another root
+
+ALL_ROOTS = ["C", "Db", "D", "Eb", "E", "F", "F#", "G", "Ab", "A", "Bb", "B"]
+_GROUPS = None
+
+
+def sounding_groups():
+    """Labels over all 12 roots grouped by their *sounding* pitch-class set (bitmap rotated to the root): C:maj6 / A:min7, C:min6 / A:hdim7,
+    C:sus4 / F:sus2, the three spellings of an augmented triad, the four of a diminished seventh ...  Only groups with >= 2 roots are kept."""
+    global _GROUPS
+    if _GROUPS is None:
+        g = {}
+        for r in ALL_ROOTS:
+            for sh in H.SHORTHANDS:
+                for e in ["", "(*5)", "(9)"]:
+                    lab = "%s:%s%s" % (r, sh, e)
+                    if not encodable(lab):
+                        continue
+                    rr, bm, _ = _enc(lab)
+                    key = tuple(sorted((i + rr) % 12 for i, v in enumerate(bm) if v))
+                    g.setdefault(key, []).append((lab, rr, bm))
+        _GROUPS = [v for k, v in sorted(g.items()) if len({x[1] for x in v}) >= 2]
+    return _GROUPS
+
+
+def enum_sounding(tier, shard, nshards):
+    for i in range(len(sounding_groups())):
+        if i % nshards == shard:
+            yield {"group": i}
+
+
+DEG_OF = {0: "1", 1: "b2", 2: "2", 3: "b3", 4: "3", 5: "4", 6: "b5", 7: "5", 8: "b6", 9: "6", 10: "b7", 11: "7"}
+
+
+def pred_sounding(case, ctx):
+    """Chords that sound the same notes over the same bass but are rooted differently are different chords for every rule except mirex:
+    each member of a group, in every inversion on one of its own tones, against each member of the group over every sounding bass."""
+    grp = sounding_groups()[case["group"]]
+    labs = []
+    for lab, rr, bm in grp:
+        for i, v in enumerate(bm):
+            if v:
+                cand = lab if i == 0 else "%s/%s" % (lab, DEG_OF[i])
+                if H.accepts(cand) and encodable(cand):
+                    labs.append(cand)
+    labs = labs[:60]
+    refs = [a for a in labs for b in labs]
+    ests = [b for a in labs for b in labs]
+    _, nt = check_lists(refs, ests, ctx)
+    ctx.events["pairs"] += len(refs)
+    ctx.events["pairs_same_notes_other_root"] += sum(1 for a, b in zip(refs, ests) if _enc(a)[0] != _enc(b)[0])
+    return nt > 0
+
+
 SUBPROPS = [
+    SubProp("same_notes_other_root", pred_sounding, enum=enum_sounding, shards=(8, 16), exhaustive=True, min_nt=5,
+            rule="labels over all 12 roots x 26 shorthands x 3 degree edits grouped by sounding pitch-class set; one case = one group with >= 2 roots, every member "
+                 "in every inversion on its own tones against every other (all ordered pairs, cap 60 labels); NT = >= 2 rules differ on some pair"),
     SubProp("core_pairs_exhaustive", pred_core, enum=enum_core, shards=(8, 16), exhaustive=True, min_nt=10,
             rule="one case = one reference label against every label of the core set (all ordered pairs); NT counted per reference with >= 1 pair on which two rules differ (pair counts in classes)"),
     SubProp("biased_pairs", pred_pair, strategy=biased_pair, n=(3000, 100000), shards=(2, 8), floor=0.3,
